@@ -7,6 +7,7 @@ CONSTANTS
   AllowMixed = TRUE
   NCorrupt = 0
   Subst0 = {48}
+  WithRelocs = TRUE
   Lens = {0, 1, 2, 4, 7, 16, 32}
 INIT Init
 NEXT Next
